@@ -4,8 +4,9 @@ from __future__ import annotations
 
 import ast
 
-from ..core import AnalysisError, Check, Scope, dotted, norm, strip_docstring, walk_no_nested
+from ..core import expand_locals, single_defs, AnalysisError, Check, Scope, dotted, norm, strip_docstring, walk_no_nested
 from ..dispatch import if_chain, isinstance_kinds, match_dispatch, sequential_chain
+from ..interp import Sym, SymInterp
 from ..variants import Variant
 from .c06 import call_site_visibility
 
@@ -157,26 +158,56 @@ class C12(Check):
         vs = [s for s in walk_no_nested(fn) if isinstance(s, (ast.Assign, ast.AnnAssign)) and norm(getattr(s, "target", None) or s.targets[0]) == "variables"]
         ic = self.prog.module(MODEL).func("Model._create_cache")
         ic_decl = any("for k in self._variables}" in norm(s) and "initial_conditions" in norm(s) for s in walk_no_nested(ic))
-        if vs and "zip(initial_conditions, " in norm(vs[0].value) and "list_of_symbols(initial_conditions)" in norm(vs[0].value) and ic_decl:
+
+        def symbols_of(e: ast.AST) -> str | None:
+            """`{n: Symbol(n) for n in A}` / `dict(zip(A, list_of_symbols(A)))` -> A (text), else None."""
+            while isinstance(e, ast.Call) and norm(e.func) == "cast" and len(e.args) == 2:
+                e = e.args[1]
+            if isinstance(e, ast.DictComp) and len(e.generators) == 1 and not e.generators[0].ifs and isinstance(e.generators[0].target, ast.Name):
+                v = e.generators[0].target.id
+                if norm(e.key) == v and norm(e.value) in (f"sympy.Symbol({v})", f"Symbol({v})"):
+                    return norm(e.generators[0].iter)
+            if isinstance(e, ast.Call) and norm(e.func) == "dict" and len(e.args) == 1 and isinstance(e.args[0], ast.Call) and norm(e.args[0].func) == "zip" and len(e.args[0].args) == 2:
+                a0, a1 = e.args[0].args
+                while isinstance(a1, ast.Call) and norm(a1.func) == "cast" and len(a1.args) == 2:
+                    a1 = a1.args[1]
+                if isinstance(a1, ast.Call) and norm(a1.func) == "list_of_symbols" and len(a1.args) == 1 and norm(a1.args[0]) == norm(a0):
+                    return norm(a0)
+            return None
+
+        defs12 = single_defs(fn)
+        src_v = symbols_of(vs[0].value) if vs else None
+        if src_v is not None and norm(expand_locals(ast.parse(src_v, mode="eval").body, defs12)) == "model.get_initial_conditions()" and ic_decl:
             self.holds("Y4", SYM, q, "variable-symbols-in-declaration-order", vs[0], "variable symbols keyed like get_initial_conditions() (declaration order)")
         else:
             self.violated("Y4", SYM, q, "variable-symbols-in-declaration-order", vs[0] if vs else fn, "variable symbols are not created in declaration order")
-        acc = [a for a in walk_no_nested(fn) if isinstance(a, ast.Assign) and norm(a.targets[0]) == "eqs[cpd]"]
-        sc9 = Scope(fn)
-        for a in acc:
-            loops = sc9.enclosing(a, ast.For)
-            table = norm(loops[1].iter) if len(loops) > 1 else "?"
-            t = norm(a.value)
-            if table == "cache.stoich_by_cpds.items()":
-                ok, cons = t == "eqs.get(cpd, sympy.Float(0.0)) + sympy.Float(stoich_value) * rxns[rxn]", "static-terms"
-            elif table == "cache.dyn_stoich_by_cpds.items()":
-                ok, cons = t == "eqs.get(cpd, sympy.Float(0.0)) + factor * rxns[rxn]", "dynamic-terms"
-            else:
+        # ---- Y9: accumulation of the equations, from the summaries of one inner iteration
+        for outer in [l for l in strip_docstring(fn.body) if isinstance(l, ast.For) and norm(l.iter) in ("cache.stoich_by_cpds.items()", "cache.dyn_stoich_by_cpds.items()")]:
+            table = norm(outer.iter)
+            inner = [l for l in outer.body if isinstance(l, ast.For)]
+            if not inner or not (isinstance(outer.target, ast.Tuple) and isinstance(inner[0].target, ast.Tuple)) or norm(inner[0].iter) != f"{norm(outer.target.elts[1])}.items()":
+                self.undecided_ob("Y9", SYM, q, "static-terms" if "dyn" not in table else "dynamic-terms", outer, "accumulation loops not recognised")
                 continue
-            if ok:
-                self.holds("Y9", SYM, q, cons, a, f"eqs[cpd] += coefficient * rate over {table}")
+            cpd, rx, val = norm(outer.target.elts[0]), norm(inner[0].target.elts[0]), norm(inner[0].target.elts[1])
+            o9 = SymInterp().block(inner[0].body, [Sym()])
+            paths9 = list(o9.normal) + list(o9.continues)
+            cons = "static-terms" if "dyn" not in table else "dynamic-terms"
+            prev = f"eqs.get({cpd}, sympy.Float(0.0))"
+            if cons == "static-terms":
+                wants = {f"{prev} + sympy.Float({val}) * rxns[{rx}]"}
             else:
-                self.violated("Y9", SYM, q, cons, a, f"`{t[:90]}` is not `previous + coefficient * rate` over {table}",
+                tr = f"fn_to_sympy({val}.fn, origin=f'{{{rx}}}:{{{cpd}}}', model_args=[symbols[_c0] for _c0 in {val}.args])"
+                wants = {f"{prev} + {tr} * rxns[{rx}]"}
+            got9 = set()
+            for stp in paths9:
+                stores = [e for e in stp.events if e[0] == "store" and e[1] == f"eqs[{cpd}]"]
+                got9.add(stores[-1][2] if len(stores) == 1 else f"{len(stores)} stores")
+            anchor9 = [a for a in ast.walk(inner[0]) if isinstance(a, ast.Assign) and norm(a.targets[0]) == f"eqs[{cpd}]"]
+            if paths9 and got9 <= wants:
+                self.holds("Y9", SYM, q, cons, anchor9[0] if anchor9 else inner[0], f"eqs[cpd] += coefficient * rate over {table}")
+            else:
+                bad9 = sorted(got9 - wants)
+                self.violated("Y9", SYM, q, cons, anchor9[0] if anchor9 else inner[0], f"`{(bad9[0] if bad9 else '?')[:110]}` is not `previous + coefficient * rate` over {table}",
                               witness="the symbolic equation of a variable lacks a coefficient or has the wrong sign")
         if not {o.construct for o in self.obs if o.rule == "Y9"} >= {"static-terms", "dynamic-terms"}:
             self.violated("Y9", SYM, q, "both-tables", fn, "the symbolic equations are not assembled from both the static and the dynamic coefficient table")
